@@ -26,7 +26,8 @@ from translate import ops as tr_ops
 PROP = "C19"
 CORPUS = lib.VERIF / "harness" / "corpus" / "C19.json"
 
-PRELUDE = """import os, math, enum
+PRELUDE = """import os, math, enum, sys
+from typing import TYPE_CHECKING
 from types import NoneType
 class A: pass
 class C: pass
@@ -60,6 +61,16 @@ MODGA = _types.ModuleType("modga")
 MODGA.present = 1
 MODGA.__getattr__ = lambda name: 2 if name.startswith("dyn") else (_ for _ in ()).throw(AttributeError(name))
 """
+
+# guards: conditions pyanalyze may evaluate definitely (sys.version_info / sys.platform comparisons, TYPE_CHECKING,
+# literal True / False), their negations and combinations; an operation is placed in the live or in the dead branch
+GUARD_ATOMS = ["sys.version_info >= (3, 0)", "sys.version_info < (3, 0)", "sys.version_info > (3, 8)", "sys.version_info <= (2, 7)",
+               "sys.version_info >= (3, 99)", 'sys.platform == "no-such-platform"', 'sys.platform != "no-such-platform"',
+               "TYPE_CHECKING", "True", "False", "(3, 0) <= sys.version_info"]
+GUARD_SHAPES = ["if", "else", "ifexp_body", "ifexp_else", "and", "or", "if_nested", "elif"]
+GUARD_OPS = [("bin", "+", "1", '"x"'), ("bin", "+", "1", "2"), ("sub", "(1, 2, 3)", "7"), ("sub", "(1, 2, 3)", "1"), ("un", "-", '"s"'), ("un", "-", "2"),
+             ("attr", "1", "nope"), ("attr", "1", "real"), ("sub", '"abc"', "None"), ("attr", "None", "real"), ("attr", "os", "ptah"), ("attr", "os", "path"),
+             ("bin", "*", "(1,)", "1.5"), ("bin", "@", "1", "1"), ("un", "~", "1.5"), ("attr", "E.a", "valu"), ("sub", "None", "0"), ("bin", "|", "int", "None")]
 
 AUGOPS = ["+", "-", "*", "//", "%", "**", "<<", "&", "|", "^", "@", "/", ">>"]
 CMPOPS = ["==", "!=", "is", "is not", "in", "not in"]
@@ -150,7 +161,48 @@ def case_expr(c):
         return f"({c[2]}) {c[1]} ({c[3]})"
     if k == "chain":
         return f"({c[1]}) {c[2]} ({c[3]}) {c[4]} ({c[5]})"
+    if k == "guard":
+        return guard_lines(c, "_v")[1]
     raise ValueError(c)
+
+
+def guard_lines(c, target, indent=""):
+    """-> (lines, one-line display, index of the line that holds the operation)"""
+    _, shape, g, op = c
+    e = case_expr(norm_case(op))
+    i1 = indent + "    "
+    if shape == "if":
+        ls = [f"{indent}if {g}:", f"{i1}{target} = {e}"]
+        at = 1
+    elif shape == "else":
+        ls = [f"{indent}if {g}:", f"{i1}pass", f"{indent}else:", f"{i1}{target} = {e}"]
+        at = 3
+    elif shape == "elif":
+        ls = [f"{indent}if False:", f"{i1}pass", f"{indent}elif {g}:", f"{i1}{target} = {e}"]
+        at = 3
+    elif shape == "if_nested":
+        ls = [f"{indent}if True:", f"{i1}if {g}:", f"{i1}    {target} = {e}"]
+        at = 2
+    elif shape == "ifexp_body":
+        ls = [f"{indent}{target} = ({e}) if ({g}) else None"]
+        at = 0
+    elif shape == "ifexp_else":
+        ls = [f"{indent}{target} = None if ({g}) else ({e})"]
+        at = 0
+    elif shape == "and":
+        ls = [f"{indent}{target} = ({g}) and ({e})"]
+        at = 0
+    elif shape == "or":
+        ls = [f"{indent}{target} = ({g}) or ({e})"]
+        at = 0
+    else:
+        raise ValueError(shape)
+    return ls, "; ".join(x.strip() for x in ls), at
+
+
+def guard_live(shape, g_value):
+    """is the operation performed, given the truth value of the guard at run time"""
+    return bool(g_value) if shape in ("if", "elif", "if_nested", "ifexp_body", "and") else not bool(g_value)
 
 
 def norm_case(c):
@@ -160,6 +212,8 @@ def norm_case(c):
         return ("seq", c[1], tuple(c[2]), c[3])
     if c[0] == "call":
         return ("call", c[1], tuple(c[2]))
+    if c[0] == "guard":
+        return ("guard", c[1], c[2], norm_case(c[3]))
     return tuple(c)
 
 
@@ -230,6 +284,17 @@ def gen_cases(rng, tier):
     # str / bytes / range / dict literals subscripted by literal keys
     for a, i in LIT_SUBSCRIPTS:
         cases.append(("sub", a, i))
+    # every kind of operation under guards, in the live and in the dead branch
+    guards = list(GUARD_ATOMS)
+    guards += [f"not {g}" if " " not in g else f"not ({g})" for g in GUARD_ATOMS] + [f"not {g}" for g in GUARD_ATOMS if g.startswith("sys.")]
+    guards += [f"not not ({g})" for g in GUARD_ATOMS[:6]]
+    for _ in range(24):
+        a, b = rng.choice(GUARD_ATOMS), rng.choice(GUARD_ATOMS)
+        guards.append(rng.choice(["({}) and ({})", "({}) or ({})", "not (({}) and ({}))", "not (({}) or ({}))", "({}) and not ({})"]).format(a, b))
+    guards = list(dict.fromkeys(guards))
+    gcases = [("guard", sh, g, op) for g in guards for sh in GUARD_SHAPES for op in GUARD_OPS]
+    for gc in (rng.sample(gcases, 1500) if quick else gcases):
+        cases.append(gc)
     # typed sequences built by tuple / list displays
     n_seq = 900 if quick else 6000
     for _ in range(n_seq):
@@ -267,6 +332,12 @@ def build_module(cases):
     if plain:
         lines.append("def f():")
         for i, c in plain:
+            if c[0] == "guard":
+                ls, _, at = guard_lines(c, f"_v{i}", "    ")
+                start = len(lines)
+                lines.extend(ls)
+                where[i] = start + at + 1
+                continue
             if c[0] == "aug":
                 lines.append(f"    _t{i} = ({c[2]})")
                 lines.append(f"    _t{i} {c[1]}= ({c[3]})")
@@ -376,7 +447,13 @@ def run_chunk(cases):
             with warnings.catch_warnings():
                 warnings.simplefilter("ignore")
                 try:
-                    if c[0] == "chain":
+                    if c[0] == "guard":
+                        # run the guarded statement under CPython: the operation is performed only in the live branch
+                        rec["live"] = guard_live(c[1], eval(c[2], ns))
+                        loc = {}
+                        exec("\n".join(guard_lines(c, "_v")[0]), ns, loc)
+                        val = loc.get("_v")
+                    elif c[0] == "chain":
                         # a op1 b op2 c short-circuits; the property is about each operation being performed
                         excs, vals = [], []
                         for link in (f"({c[1]}) {c[2]} ({c[3]})", f"({c[3]}) {c[4]} ({c[5]})"):
@@ -404,6 +481,8 @@ def run_chunk(cases):
                     rec["oracle"] = {"exc": type(ex).__name__}
                     if isinstance(inferred, KnownValue):
                         rec["inferred"]["repr"] = short(inferred.val)
+            if c[0] == "guard":
+                rec.pop("literal_ok", None)  # the value of the guarded statement is not the value of the operation
             if c[0] in ("un", "bin"):
                 rec["sides"] = observe_sides(c, ns)
             if c[0] == "aug":
@@ -885,6 +964,17 @@ def judge(cases, recs, models, rep, findings_text):
                 fail_why = f"value {o['bad']['value']} of {o['bad']['sequence']} is outside the inferred type"
             bump("verdict", "diag" if diag else rec["inferred"]["k"])
             nontrivial = any(m_ for m_, _ in c[2]) or len(c[2]) > 1
+        elif c[0] == "guard":
+            exc = rec["oracle"].get("exc")
+            live = rec.get("live")
+            bump("oracle_exc", f"guard:{'live' if live else 'dead'}:{exc or 'ok'}")
+            op = c[3]
+            want = exc in ("TypeError", "AttributeError") or (exc == "IndexError" and op[0] == "sub" and op[1].startswith("("))
+            bump("verdict", f"guard:{'live' if live else 'dead'}:" + ("diag" if diag else "nodiag") + "/" + ("raises" if want else "ok"))
+            # only the live branch is demanded: the operation of a dead branch is not performed
+            if live and diag != want:
+                fail_why = f"guarded operation in the live branch: diagnosed={diag} but CPython: {exc or 'no exception'}"
+            nontrivial = True
         else:
             exc = rec["oracle"].get("exc")
             bump("oracle_exc", exc or "ok")
